@@ -93,7 +93,10 @@ def run(ctx):
     grammar = open(os.path.join(REPO, "meta", "src", "grammar.pest"), encoding="utf-8").read()
     extra = open(os.path.join(HARNESS, "bootstrap_extra.rs")).read()
     extra += "\nstatic GRAMMAR: &str = %s;\n" % gencrate.raw(grammar)
-    runner = gencrate.build(ctx.pid, [grammar], extra_rs=extra, opt=1)
+    # the fresh parser is derived from a FILE called grammar.pest, after another parser derived from another grammar.pest
+    # (the repository itself has three files of that name)
+    decoy = 'string = { "<" ~ (!">" ~ ANY)* ~ ">" }\nrange = { string ~ "-" ~ string }\nexpression = { range | string }\n'
+    runner = gencrate.build(ctx.pid, [grammar], extra_rs=extra, opt=1, by_path_decoy=decoy)
     out = os.path.join(ctx.work, "boot.ndjson")
     gram = os.path.join(ctx.work, "metagrammar.ndjson")
     s = run_json([runner, "boot", "--texts", texts, "--out", out, "--grammar-out", gram, "--doc-every", "25" if quick else "10"], timeout=20000)
